@@ -32,6 +32,12 @@ def e2e_candidates(case):
             d = copy.deepcopy(c)
             del d[key][i]
             yield d
+    for i in range(len(c.get('lines') or [])):
+        d = copy.deepcopy(c)
+        del d['lines'][i]
+        if not d['lines']:
+            del d['lines']
+        yield d
     for key in ('kbi', 'fresh', 'agg'):
         if c.get(key):
             d = copy.deepcopy(c)
